@@ -132,6 +132,35 @@ func TestHarness(t *testing.T) {
 					emit(ResolveCase{Root: zr.Name, Fn: p, Argc: a, Outcome: out, Hits: hits, LinkErr: le, RespErr: re, Expect: exp})
 				}
 			}
+			// systematic near-misses of every callable path, sent with that path's own argument count:
+			// empty path segments, surrounding dots and blanks, differently-cased first letters
+			valid := []string{}
+			for p := range zr.Callable {
+				valid = append(valid, p)
+			}
+			sort.Strings(valid)
+			r.Shuffle(len(valid), func(i, j int) { valid[i], valid[j] = valid[j], valid[i] })
+			if len(valid) > 14 {
+				valid = valid[:14]
+			}
+			for _, p := range valid {
+				exp := zr.Callable[p]
+				var a int
+				fmt.Sscanf(exp[strings.LastIndexByte(exp, '/')+1:], "%d", &a)
+				muts := []string{"." + p, ".." + p, p + ".", " " + p, p + " ", strings.ToLower(p[:1]) + p[1:]}
+				for i := 0; i < len(p); i++ {
+					if p[i] == '.' {
+						muts = append(muts, p[:i]+".."+p[i+1:], p[:i]+". "+p[i+1:])
+					}
+				}
+				for _, m := range muts {
+					if _, ok := zr.Callable[m]; ok {
+						continue
+					}
+					out, hits, le, re := ResolveOnce(zr.Value, m, a)
+					emit(ResolveCase{Root: zr.Name, Fn: m, Argc: a, Outcome: out, Hits: hits, LinkErr: le, RespErr: re, Expect: "none"})
+				}
+			}
 		}
 	case "sys":
 		// Params: which families (bit mask via list in Cases), n per family
